@@ -134,7 +134,9 @@ def expand(item, seed):
                 for np in (None, ["a.b"], [".b"], ["*"]):
                     yield _base(scheme=scheme, opt_auth=auth, opt_no_proxy=np, api="app")
             for var in ("http_proxy", "https_proxy"):
-                for url in (f"http://{PROXY_HOST}:{PROXY_PORT}", f"http://eu@{PROXY_HOST}:{PROXY_PORT}", f"http://eu:ep%40ss@{PROXY_HOST}:{PROXY_PORT}"):
+                for url in (f"http://{PROXY_HOST}:{PROXY_PORT}", f"http://eu@{PROXY_HOST}:{PROXY_PORT}", f"http://eu:ep%40ss@{PROXY_HOST}:{PROXY_PORT}",
+                            f"http://eu:p%2Fs%3Fs%23@{PROXY_HOST}:{PROXY_PORT}", f"http://e%2Fu:pw@{PROXY_HOST}:{PROXY_PORT}",
+                            f"http://e%3Au:p%3Aw@{PROXY_HOST}:{PROXY_PORT}"):
                     yield _base(scheme=scheme, opt_proxy=False, env={var: url}, api="app")
                     yield _base(scheme=scheme, opt_proxy=False, env={var: url})
     elif k == "socks":
@@ -195,7 +197,7 @@ def gen(rng):
     for var in ("http_proxy", "https_proxy"):
         if rng.random() < 0.45:
             v = var if rng.random() < 0.6 else var.upper()
-            auth = rng.choice(("", "", "eu:ep%40ss@", "eu@"))
+            auth = rng.choice(("", "", "eu:ep%40ss@", "eu@", "eu:p%2Fs%3Fs%23@", "e%2Fu:pw@", "e%3Au:p%3Aw@"))
             env[v] = f"http://{auth}{PROXY_HOST}:{PROXY_PORT}" if rng.random() < 0.8 else f"http://{auth}{PROXY_HOST}" + rng.choice(("", "/"))
             if rng.random() < 0.15:
                 env[var.upper() if v == var else var] = env[v]
@@ -386,7 +388,7 @@ def _run(sc, choices=None):
         src, want_auth = "option", (auth if auth else None)
     elif envp:
         src = "env"
-        want_auth = ["eu", "ep@ss"] if "eu:" in envp else (["eu", ""] if "eu@" in envp else None)
+        want_auth = _env_auth(envp)
     else:
         src, want_auth = None, None
     want_proxy = src is not None and not ex
@@ -483,6 +485,19 @@ def _run(sc, choices=None):
     if ex:
         res.probes["exempt_" + rel] = 1
     return res
+
+
+def _env_auth(url):
+    """credentials of a proxy URL, written from RFC 3986: userinfo is what stands before the last '@' of the authority, user and
+    password are separated by the first ':', and percent-escapes are decoded AFTER the splitting."""
+    from urllib.parse import unquote
+    rest = url.split("://", 1)[1]
+    authority = rest.split("/", 1)[0].split("?", 1)[0].split("#", 1)[0]
+    if "@" not in authority:
+        return None
+    userinfo = authority.rsplit("@", 1)[0]
+    user, _, pw = userinfo.partition(":")
+    return [unquote(user), unquote(pw)]
 
 
 def _decide(scheme, host, sc, env, opt_np):
